@@ -36,10 +36,12 @@ def base_frame(n, start=0):
                          "p": np.array([i % 2 for i in range(n)], dtype="int64")})[["a", "b", "c", "p"]]
 
 
-def make_existing(path, layout, nrg, required=False):
+def make_existing(path, layout, nrg, required=False, cat=False):
     import fastparquet
     n = 4 * nrg
     df = base_frame(n)
+    if cat:
+        df["c"] = pd.Categorical(df["c"], categories=["c0", "c1", "c2"])
     offs = list(range(0, n, 4))
     kw = dict(row_group_offsets=offs, write_index=False, object_encoding="utf8")
     if required:
@@ -85,6 +87,16 @@ def rejections(layout):
             df2.at[1 if rgpos == 0 else 5, c2] = None
             out.append((f"null-in-required col{colpos} rg{rgpos}", "late-required",
                         append(df2, row_group_offsets=[0, 4]), False))
+    # missing value in a categorical column declared non-nullable, under every statistics setting
+    for rgpos in (0, 1):
+        for stats in ("default", False, True, ["a"]):
+            df3 = base_frame(8, 100)
+            codes = [i % 3 for i in range(8)]
+            codes[1 if rgpos == 0 else 5] = -1
+            df3["c"] = pd.Categorical.from_codes(codes, categories=["c0", "c1", "c2"])
+            kw3 = {} if stats == "default" else {"stats": stats}
+            out.append((f"null-in-required-categorical rg{rgpos} stats={stats}", "late-required-cat",
+                        append(df3, row_group_offsets=[0, 4], **kw3), False))
     # the same failure after MANY bytes of new row groups have been written (more than the old footer is long):
     # only then does a missing truncate / wrong restore offset show
     for colpos in (0, 2):
@@ -152,7 +164,7 @@ def run(ctx, report):
                 shutil.rmtree(path, ignore_errors=True)
                 if os.path.isfile(path):
                     os.remove(path)
-                df0 = make_existing(path, layout, nrg, required=(kind == "late-required"))
+                df0 = make_existing(path, layout, nrg, required=kind.startswith("late-required"), cat=(kind == "late-required-cat"))
                 before = snapshot(path)
                 rec = {"check": "reject", "rejection": name, "kind": kind, "layout": layout, "row_groups": nrg}
                 ctx.crumb(rec)
